@@ -46,13 +46,13 @@ REGISTRY = dict(
     design_ref="DESIGN.md 6 C11",
     note="Trusted: TLC, harness/pkg/c11canon (canonical form), the recording plugin, lib/c11_programs.py. Hook: "
          "plugin/export_verif.go (export only). Time is abstract in the spec: 'slow' = 2.5 s against a 300 ms limit, "
-         "'fast' cases use a 20 s limit or none; slack 8 s.",
+         "'fast' cases use a 20 s limit or none; slack 15 s.",
     technique="TLA+ refinement (include compression) + TLC-generated cases replayed in-process and on the binary + "
               "TLC trace validation")
 
 FM_TLA = os.path.join(vlib.VERIF, "spec", "FileManager", "FileManager.tla")
 MARK = "@@thriftgo_insertion_point(%s)"
-SLACK_S = 8.0
+SLACK_S = 15.0
 SLOW_MS = 2500
 RUN_TIMEOUT_S = 45
 
@@ -827,7 +827,7 @@ def proto_case(cs, k, variant):
             "compress_env": "1" if k % 4 == 1 else None,
             "limit": {0: "0", 300: "300ms", 20000: "20s"}[cs["limit"]],
             "beyond": beyond, "scan_procs": beyond,
-            "timeout": 25 if beyond else RUN_TIMEOUT_S}
+            "timeout": 30 if beyond else RUN_TIMEOUT_S}
 
 
 def proto_trace(c, obs, version, ref):
@@ -897,7 +897,8 @@ def validate_proto(ctx, cases, traces):
     tf = ctx.path("proto-traces.ndjson")
     vlib.write_ndjson(tf, traces)
     files = {"traces.ndjson": tf, "FileManager.tla": FM_TLA}
-    r = ctx.tlc("Plugin", "Trace_Plugin", "Trace_Plugin", files=files, timeout=1500, label="Trace_Plugin")
+    r = ctx.tlc("Plugin", "Trace_Plugin", "Trace_Plugin", files=files, timeout=1500, label="Trace_Plugin",
+                workers=min(vlib.NCPU, 4 if len(traces) < 400 else 16))
     acc = {int(s[4:]) - 1 for s in r["lines"] if s.startswith("ACC ")}
     rej = [i for i in range(len(traces)) if i not in acc]
     ctx.traces_validated += len(traces)
